@@ -65,13 +65,31 @@ PROPS['C11'] = {
                     'reader: seek_physical accepts offsets inside checksum bytes; writer-reported positions never are (proved: physical_position % 1024 < 1020)'],
 }
 
-FIX_COMMITS = ['4bb8197', '4c9a29a']
+TRUSTED_ALLOW['rd_top'] = TRUSTED_ALLOW['page_r'] | {'external_body:shim_u64_from_le_bytes'}
+_CRC_MATH = 'error-detection facts of the Castagnoli polynomial (HD>=4 up to 8192 bits, all bursts <= 32 bits) are mathematics about the polynomial, not about this code: assumed'
+PROPS['C07'] = {
+    'level': 'proof',
+    'verus': ['page_r', 'rd_top'],
+    'kani': ['crc_k'],
+    'claim': ('Cache-coherence invariant of PagedReader proved on every exit of read_page (after a failure the cache is never stale); '
+              'read / read_exact / extract_xml hand out only bytes of pages whose stored big-endian checksum matches crc32c of the payload '
+              '(postcondition page_ok for every byte) and otherwise fail with the cursor unchanged; validate_crc Ok => every page sealed '
+              '(loop invariant over all pages, terminates); built-in CRC = CRC-32C: table = bitwise reflected division by 0x82F63B78 '
+              '(all 256 entries), one table step = 8 bitwise steps for all (u32,u8), init/final xor and check value.'),
+    'trusted': GLOBAL_TRUSTED + [_DEV, _CRC_OFF, _CRC_MATH],
+    'assumptions': [_DEV, _CRC_OFF, _CRC_MATH,
+                    'the optional crc32c crate (hardware path) is outside both verifiers; identical files/verdicts follow if it computes CRC-32C',
+                    'Crc32::calculate is modelled in the Verus units as the uninterpreted function crc32c(data); the Kani unit relates the real calculate to the bitwise CRC-32C definition (per-byte step for all states; whole inputs bounded to length <= 3)',
+                    'points/blobs read paths above the page layer inherit the guarantee through PagedReader::read/read_exact contracts (units rd, blob)'],
+}
+
+FIX_COMMITS = ['4bb8197', '4c9a29a', '15147a8']
 
 _PENDING = 'unit not completed yet in the build round (applicable; see DESIGN.md §1) — not claimed until its obligations are discharged'
 NOT_APPLICABLE = {
     'C01': _PENDING, 'C02': _PENDING, 'C03': _PENDING,
     'C04': 'lives entirely in format!-built strings and roxmltree parsing; no contract within reach of Verus (no str byte reasoning) or Kani (roxmltree does not finish) can state parse(serialise(x)) = x (DESIGN.md §6)',
-    'C05': _PENDING, 'C06': _PENDING, 'C07': _PENDING, 'C08': _PENDING, 'C09': _PENDING, 'C10': _PENDING,
+    'C05': _PENDING, 'C06': _PENDING, 'C08': _PENDING, 'C09': _PENDING, 'C10': _PENDING,
     'C13': _PENDING, 'C14': _PENDING, 'C15': _PENDING, 'C16': _PENDING, 'C17': _PENDING,
     'C18': 'about roxmltree name matching and element lookup over arbitrary XML trees; would need an assumed contract on the dependency, which decides nothing (DESIGN.md §6)',
     'C19': 'whole-file composition of C01+C03+C04 plus writer determinism; the XML half is out of reach and whole-program composition is not a per-function contract; decidable ingredients are discharged under C10/C11/C12 (DESIGN.md §6)',
